@@ -343,7 +343,8 @@ func TestC07(t *testing.T) {
 						h.class("enumerated")
 						report(c, f)
 
-						if f != nil && f.Clause != "discard" && !f.Infra && knownFinding("C07", f) == nil {
+						// (a watchdog expiry is confirmed or dismissed by report)
+						if f != nil && f.Clause != "discard" && !f.Infra && !strings.HasPrefix(f.Clause, "hang") && knownFinding("C07", f) == nil {
 							return
 						}
 					}
